@@ -108,18 +108,23 @@ func expandNamedUUID(column *ColumnSchema, value interface{}, namedUUIDs map[str
 		valType = column.TypeObj.Value.Type
 	}
 
-	if valType == TypeUUID {
-		if m, ok := value.(OvsMap); ok {
-			for k, v := range m.GoMap {
-				if newUUID, ok := expandNamedUUIDAtomic(keyType, k, namedUUIDs); ok {
-					m.GoMap[newUUID] = m.GoMap[k]
-					delete(m.GoMap, k)
-					k = newUUID
-				}
-				if newUUID, ok := expandNamedUUIDAtomic(valType, v, namedUUIDs); ok {
-					m.GoMap[k] = newUUID
-				}
+	if m, ok := value.(OvsMap); ok && column.Type == TypeMap {
+		// both the keys and the values of a map may be named UUIDs
+		expanded := make(map[interface{}]interface{}, len(m.GoMap))
+		for k, v := range m.GoMap {
+			if newUUID, ok := expandNamedUUIDAtomic(keyType, k, namedUUIDs); ok {
+				k = newUUID
 			}
+			if newUUID, ok := expandNamedUUIDAtomic(valType, v, namedUUIDs); ok {
+				v = newUUID
+			}
+			expanded[k] = v
+		}
+		for k := range m.GoMap {
+			delete(m.GoMap, k)
+		}
+		for k, v := range expanded {
+			m.GoMap[k] = v
 		}
 	} else if keyType == TypeUUID {
 		if ovsSet, ok := value.(OvsSet); ok {
